@@ -10,7 +10,7 @@ M = [
  ("c19-bit-index", "security/crypto/bitfield.go", "i := int(id) - 1", "i := int(id)", ["C19"]),
  ("c17-parent-pos", "internal/tree/tree.go", "parentPos := (myPos - 1) / t.branchFactor", "parentPos := myPos / t.branchFactor", ["C17"]),
  ("c16-rr-no-plus1", "protocol/leaderrotation/common.go", "view%hotstuff.View(numReplicas) + 1", "view%hotstuff.View(numReplicas)", ["C16"]),
- ("c14-pop-head", "core/eventloop/queue.go", "\t\tq.head++\n\t\tif q.head == len(q.entries) {\n\t\t\tq.head = 0\n\t\t}\n\t}\n\treturn entry, true", "\t\tq.head++\n\t\tif q.head >= len(q.entries)-1 {\n\t\t\tq.head = 0\n\t\t}\n\t}\n\treturn entry, true", ["C14"]),
+ ("c14-pop-head", "core/eventloop/queue.go", "\t\tq.head++\n\t\tif q.head == len(q.entries) {\n\t\t\tq.head = 0\n\t\t}\n\t}\n\n\treturn entry, true", "\t\tq.head++\n\t\tif q.head >= len(q.entries)-1 {\n\t\t\tq.head = 0\n\t\t}\n\t}\n\n\treturn entry, true", ["C14"]),
  ("c14-prio-order", "core/eventloop/eventloop.go", "\t\tif handler.opts.priority {\n\t\t\tpriorityList", "\t\tif !handler.opts.priority {\n\t\t\tpriorityList", ["C14"]),
  ("c08-dedup-id-only", "protocol/synchronizer/timeout_collector.go", "return t.View == timeout.View && t.ID == timeout.ID", "return t.ID == timeout.ID", ["C08"]),
  ("c08-old-views", "protocol/synchronizer/timeout_collector.go", "return t.View < currentView })", "return t.View <= currentView })", ["C08"]),
@@ -27,10 +27,10 @@ M = [
  ("c07-skip-viewchange-event", "protocol/synchronizer/synchronizer.go", "\ts.eventLoop.AddEvent(hotstuff.ViewChangeEvent{View: newView, Timeout: timeout})", "\tif !timeout {\n\t\ts.eventLoop.AddEvent(hotstuff.ViewChangeEvent{View: newView, Timeout: timeout})\n\t}", ["C07"]),
  ("c05-no-advance-on-current-view", "protocol/synchronizer/synchronizer.go", "\tif view < s.state.View() {\n\t\treturn\n\t}", "\tif view <= s.state.View() && timeout {\n\t\treturn\n\t}", ["C05"]),
  ("c01-chained-no-safety", "protocol/rules/chainedhotstuff.go", "\t\tif hs.blockchain.Extends(block, hs.bLock) {\n\t\t\tsafe = true", "\t\tif true || hs.blockchain.Extends(block, hs.bLock) {\n\t\t\tsafe = true", ["C04", "C01"]),
- ("c15-no-resignal", "internal/proto/clientpb/cmdcache.go", "\t\t\tif c.hasFullBatch() {\n\t\t\t\tc.signalReady()\n\t\t\t}\n\t\t\tc.mut.Unlock()\n\t\t\treturn batch, nil", "\t\t\tc.mut.Unlock()\n\t\t\treturn batch, nil", ["C15"]),
+ ("c15-no-resignal", "internal/proto/clientpb/cmdcache.go", "\t\t\tif c.hasFullBatch() {\n\t\t\t\tc.signalReady()\n\t\t\t}\n\n\t\t\tc.mut.Unlock()", "\t\t\tc.mut.Unlock()", ["C15"]),
  ("c15-dup-filter-lt", "internal/proto/clientpb/cmdcache.go", "return seqNum >= cmd.GetSequenceNumber()", "return seqNum > cmd.GetSequenceNumber()", ["C15"]),
  ("c15-extract-keeps-prefix", "internal/proto/clientpb/cmdcache.go", "c.cache = c.cache[extracted:]", "c.cache = c.cache[len(batch.Commands):]", ["C15"]),
- ("c14-delayed-dup", "core/eventloop/eventloop.go", "\tif events, ok = el.waitingEvents[t]; ok {\n\t\tdelete(el.waitingEvents, t)\n\t}", "\tevents, ok = el.waitingEvents[t]", ["C14"]),
+ ("c14-delayed-dup", "core/eventloop/eventloop.go", "\tif events, ok = el.waitingEvents[t]; ok {\n\t\tdelete(el.waitingEvents, t)\n\t}", "\tif events, ok = el.waitingEvents[t]; !ok {\n\t\tdelete(el.waitingEvents, t)\n\t}", ["C14"]),
  ("c09-vm-quorum-off-by-one", "protocol/votingmachine/votingmachine.go", "if len(votes) < vm.config.QuorumSize() {", "if len(votes) < vm.config.QuorumSize()-1 {", ["C09", "C07"]),
  ("c09-kauri-no-overlap-check", "protocol/comm/kauri/kauri.go", "\t\tcanMerge = !b.Participants().Contains(i)", "\t\tcanMerge = true || !b.Participants().Contains(i)", ["C09"]),
  ("c12-drop-aggqc-view", "internal/proto/hotstuffpb/convert.go", "return &AggQC{QCs: pQCs, Sig: QuorumSignatureToProto(aggQC.Sig()), View: uint64(aggQC.View())}", "return &AggQC{QCs: pQCs, Sig: QuorumSignatureToProto(aggQC.Sig())}", ["C12"]),
